@@ -43,7 +43,7 @@ Section MembersC.
   Qed.
 
   (** ** algebra of [wsum] *)
-  Lemma wsum_ext {A} c (f g : A -> R) i l :
+  Lemma wsum_ext {T} c (f g : T -> R) i l :
     (forall a, In a l -> f a = g a) -> wsum c f i l = wsum c g i l.
   Proof.
     revert i. induction l as [|a l IH]; intros i H; cbn [wsum]; [reflexivity|].
@@ -51,61 +51,61 @@ Section MembersC.
     intros b Hb. apply H. right. exact Hb.
   Qed.
 
-  Lemma wsum_map {A B} c (h : A -> B) (f : B -> R) i l :
+  Lemma wsum_map {T U} c (h : T -> U) (f : U -> R) i l :
     wsum c f i (map h l) = wsum c (fun a => f (h a)) i l.
   Proof.
     revert i. induction l as [|a l IH]; intro i; cbn [wsum map]; [reflexivity|].
     rewrite IH. reflexivity.
   Qed.
 
-  Lemma wsum_plus {A} c (f g : A -> R) i l :
+  Lemma wsum_plus {T} c (f g : T -> R) i l :
     wsum c (fun a => f a + g a) i l = wsum c f i l + wsum c g i l.
   Proof.
     revert i. induction l as [|a l IH]; intro i; cbn [wsum]; [lra|]. rewrite IH. lra.
   Qed.
 
-  Lemma wsum_minus {A} c (f g : A -> R) i l :
+  Lemma wsum_minus {T} c (f g : T -> R) i l :
     wsum c (fun a => f a - g a) i l = wsum c f i l - wsum c g i l.
   Proof.
     revert i. induction l as [|a l IH]; intro i; cbn [wsum]; [lra|]. rewrite IH. lra.
   Qed.
 
-  Lemma wsum_scal {A} c k (f : A -> R) i l :
+  Lemma wsum_scal {T} c k (f : T -> R) i l :
     wsum c (fun a => k * f a) i l = k * wsum c f i l.
   Proof.
     revert i. induction l as [|a l IH]; intro i; cbn [wsum]; [lra|]. rewrite IH. lra.
   Qed.
 
   (** ** (G2) double sums *)
-  Definition dsum {A} (c : nat -> R) (f : A -> A -> R) (l : list A) : R :=
+  Definition dsum {T} (c : nat -> R) (f : T -> T -> R) (l : list T) : R :=
     wsum c (fun a => wsum c (fun b => f a b) 0 l) 0 l.
 
-  Lemma dsum_ext {A} c (f g : A -> A -> R) l :
+  Lemma dsum_ext {T} c (f g : T -> T -> R) l :
     (forall a b, In a l -> In b l -> f a b = g a b) -> dsum c f l = dsum c g l.
   Proof.
     intro H. unfold dsum. apply wsum_ext. intros a Ha. apply wsum_ext. intros b Hb.
     apply H; assumption.
   Qed.
 
-  Lemma dsum_plus {A} c (f g : A -> A -> R) l :
+  Lemma dsum_plus {T} c (f g : T -> T -> R) l :
     dsum c (fun a b => f a b + g a b) l = dsum c f l + dsum c g l.
   Proof.
     unfold dsum. rewrite <- wsum_plus. apply wsum_ext. intros a _. apply wsum_plus.
   Qed.
 
-  Lemma dsum_minus {A} c (f g : A -> A -> R) l :
+  Lemma dsum_minus {T} c (f g : T -> T -> R) l :
     dsum c (fun a b => f a b - g a b) l = dsum c f l - dsum c g l.
   Proof.
     unfold dsum. rewrite <- wsum_minus. apply wsum_ext. intros a _. apply wsum_minus.
   Qed.
 
-  Lemma dsum_scal {A} c k (f : A -> A -> R) l :
+  Lemma dsum_scal {T} c k (f : T -> T -> R) l :
     dsum c (fun a b => k * f a b) l = k * dsum c f l.
   Proof.
     unfold dsum. rewrite <- wsum_scal. apply wsum_ext. intros a _. apply wsum_scal.
   Qed.
 
-  Lemma dsum_inner {A} c (p q : A -> E) l :
+  Lemma dsum_inner {T} c (p q : T -> E) l :
     dsum c (fun a b => inner (p a) (q b)) l = inner (wcomb c 0 (map p l)) (wcomb c 0 (map q l)).
   Proof.
     unfold dsum. rewrite inner_wcomb_l, wsum_map. apply wsum_ext. intros a _.
@@ -138,7 +138,7 @@ Section MembersC.
   Qed.
 
   (** ** (G3) linear maps commute with weighted combinations *)
-  Lemma linear_wcomb_gen {A} (M : E -> E) c (p q : A -> E) i l :
+  Lemma linear_wcomb_gen {T} (M : E -> E) c (p q : T -> E) i l :
     linear M -> (forall a, In a l -> veq (q a) (M (p a))) ->
     veq (wcomb c i (map q l)) (M (wcomb c i (map p l))).
   Proof.
@@ -159,11 +159,129 @@ Section MembersC.
     intros HM H. apply linear_wcomb_gen; [exact HM|]. intros [x g] Ha. apply H, Ha.
   Qed.
 
-  (** ** LinearOperator(L) *)
-  Lemma mem_lin_adjoint L M Mt xi yi uj vj :
-    bounded_pair L M Mt -> veq yi (M xi) -> veq vj (Mt uj) -> ref_lin_adjoint xi yi uj vj = 0.
+  (** ** symmetry of an LMI matrix *)
+  Lemma nth_map_err {T U} (f : T -> U) l i d :
+    nth i (map f l) d = match nth_error l i with Some a => f a | None => d end.
   Proof.
-    intros HB Hy Hv. unfold ref_lin_adjoint.
+    revert i. induction l as [|a l IH]; intro i; destruct i; cbn [map nth nth_error]; try reflexivity.
+    apply IH.
+  Qed.
+
+  Lemma nth_lmi (ref : E -> E -> E -> E -> R) l i j :
+    nth j (nth i (lmi_matrix ref l) []) 0
+    = match nth_error l i, nth_error l j with
+      | Some a, Some b => ref (fst a) (snd a) (fst b) (snd b)
+      | _, _ => 0
+      end.
+  Proof.
+    rewrite lmi_matrix_eq, nth_map_err.
+    destruct (nth_error l i) as [a|].
+    - rewrite nth_map_err. destruct (nth_error l j); reflexivity.
+    - destruct j; reflexivity.
+  Qed.
+
+  Lemma sym_lmi (ref : E -> E -> E -> E -> R) l :
+    (forall a b, In a l -> In b l ->
+       ref (fst a) (snd a) (fst b) (snd b) = ref (fst b) (snd b) (fst a) (snd a)) ->
+    sym_rows (lmi_matrix ref l).
+  Proof.
+    intros H i j. rewrite !nth_lmi.
+    destruct (nth_error l i) as [a|] eqn:Ei; destruct (nth_error l j) as [b|] eqn:Ej;
+      try reflexivity.
+    apply H; eapply nth_error_In; eassumption.
+  Qed.
+
+  (** samples as the generator sees them: the (x, g) components of recorded triples *)
+  Definition sample_xg (s : @triple E) : E * E := (fst (fst s), snd (fst s)).
+
+  Lemma in_sample_xg (G : @triple E -> Prop) (R' : E -> E -> Prop) samples :
+    (forall x g f, G (x, g, f) -> R' x g) ->
+    (forall s, In s samples -> G s) ->
+    forall x g, In (x, g) (map sample_xg samples) -> R' x g.
+  Proof.
+    intros HG H x g Hin. apply in_map_iff in Hin. destruct Hin as [[[x' g'] f'] [Heq Hin]].
+    unfold sample_xg in Heq. cbn in Heq. inversion Heq; subst x' g'.
+    apply (HG x g f'), H, Hin.
+  Qed.
+
+  (** ** (G4) commuting bounds: for self-adjoint mu <= Q <= L,  <(L - Q) a, (Q - mu) a> >= 0,
+      i.e. (L + mu) <Q a, a> - |Q a|^2 - mu L |a|^2 >= 0.
+      Cauchy-Schwarz for the semi-inner product [x, y] = <(L - Q) x, y> (an [ips] instance:
+      only positivity is needed), applied to a and (L - Q) a. *)
+  Section Shift.
+    Variables (mu L : R) (Q : E -> E).
+    Hypothesis HQ : sa_bounded mu L Q.
+    Let si (x y : E) : R := L * inner x y - inner (Q x) y.
+
+    Lemma si_sym u w : si u w = si w u.
+    Proof.
+      unfold si. rewrite (inner_sym E u w), (sab_sym _ _ _ HQ u w), (inner_sym E u (Q w)). reflexivity.
+    Qed.
+    Lemma si_add u1 u2 w : si (vadd u1 u2) w = si u1 w + si u2 w.
+    Proof.
+      unfold si. rewrite (lin_add _ (sab_lin _ _ _ HQ) u1 u2 w), !inner_add_l. lra.
+    Qed.
+    Lemma si_scal k u w : si (vscal k u) w = k * si u w.
+    Proof.
+      unfold si. rewrite (lin_scal _ (sab_lin _ _ _ HQ) k u w), !inner_scal_l. lra.
+    Qed.
+    Lemma si_zero w : si vzero w = 0.
+    Proof.
+      unfold si. rewrite (lin_zero _ (sab_lin _ _ _ HQ) w), !inner_zero_l. lra.
+    Qed.
+    Lemma si_pos u : 0 <= si u u.
+    Proof. unfold si. pose proof (sab_hi _ _ _ HQ u) as P. unfold nrm2 in P. lra. Qed.
+
+    Definition shift_ips : ips :=
+      {| V := V E; vzero := @vzero E; vadd := @vadd E; vscal := @vscal E; inner := si;
+         inner_sym := si_sym; inner_add_l := si_add; inner_scal_l := si_scal;
+         inner_zero_l := si_zero; inner_pos := si_pos |}.
+
+    Lemma commuting_bounds_sect (a : E) :
+      0 <= (L + mu) * inner (Q a) a - inner (Q a) (Q a) - mu * L * inner a a.
+    Proof.
+      set (Ta := vsub (vscal L a) (Q a)).
+      pose proof (@cauchy_schwarz shift_ips a Ta) as CS. cbn in CS. unfold si in CS.
+      assert (Hn1 : inner Ta Ta = L * inner a Ta - inner (Q a) Ta).
+      { unfold Ta at 1. rewrite inner_sub_l, inner_scal_l. reflexivity. }
+      assert (Hp1 : inner Ta a = L * inner a a - inner (Q a) a).
+      { unfold Ta. rewrite inner_sub_l, inner_scal_l. reflexivity. }
+      assert (Hn2 : inner Ta Ta = L * L * inner a a - 2 * L * inner (Q a) a + inner (Q a) (Q a)).
+      { unfold Ta, vsub, vneg.
+        rewrite ?inner_add_l, ?inner_add_r, ?inner_scal_l, ?inner_scal_r.
+        rewrite (inner_sym E a (Q a)). ring. }
+      rewrite <- Hn1, <- Hp1 in CS.
+      pose proof (sab_lo _ _ _ HQ Ta) as Hlo. unfold nrm2 in Hlo.
+      pose proof (inner_pos E Ta) as Hn0.
+      pose proof (si_pos a) as Hp0. unfold si in Hp0. rewrite <- Hp1 in Hp0.
+      pose proof (cauchy_schwarz Ta a) as CSE.
+      set (n := inner Ta Ta) in *. set (p := inner Ta a) in *.
+      set (qt := inner (Q Ta) Ta) in *.
+      set (aa := inner a a) in *. set (qa := inner (Q a) a) in *. set (qq := inner (Q a) (Q a)) in *.
+      assert (Hgoal : (L + mu) * qa - qq - mu * L * aa = (L - mu) * p - n).
+      { rewrite Hn2, Hp1. ring. }
+      rewrite Hgoal.
+      destruct (Req_dec n 0) as [Hz|Hnz].
+      - rewrite Hz in CSE. assert (Hpz : p = 0) by nra. rewrite Hpz, Hz. lra.
+      - assert (Hnpos : 0 < n) by lra.
+        assert (H1 : p * (L * n - qt) <= p * ((L - mu) * n)).
+        { apply Rmult_le_compat_l; [exact Hp0|lra]. }
+        assert (H2 : n * n <= n * ((L - mu) * p)) by lra.
+        apply Rmult_le_reg_l in H2; [lra|exact Hnpos].
+    Qed.
+  End Shift.
+
+  Lemma commuting_bounds mu L Q (a : E) :
+    sa_bounded mu L Q ->
+    0 <= (L + mu) * inner (Q a) a - inner (Q a) (Q a) - mu * L * inner a a.
+  Proof. intro HQ. apply (commuting_bounds_sect mu L Q HQ). Qed.
+
+  (** ** LinearOperator(L) *)
+  Lemma mem_lin_adjoint L M Mt xi yi fi uj vj hj :
+    bounded_pair L M Mt -> genuine_lin M (xi, yi, fi) -> genuine_lin Mt (uj, vj, hj) ->
+    ref_lin_adjoint xi yi uj vj = 0.
+  Proof.
+    intros HB Hy Hv. unfold ref_lin_adjoint. cbn in Hy, Hv.
     rewrite (veq_inner_r _ _ xi Hv), (veq_inner_l _ _ uj Hy), (bp_adj _ _ _ HB). lra.
   Qed.
 
@@ -175,7 +293,7 @@ Section MembersC.
     rewrite dsum_minus, dsum_scal, !dsum_inner. reflexivity.
   Qed.
 
-  (** generic: a map with |M a|^2 <= L^2 |a|^2 that commutes with wcomb *)
+  (** generic: a linear map with |M a|^2 <= L^2 |a|^2 *)
   Lemma lin_lmi_psd_gen L (M : E -> E) l :
     linear M -> (forall a, nrm2 (M a) <= L ^ 2 * nrm2 a) ->
     (forall x y, In (x, y) l -> veq y (M x)) ->
@@ -187,43 +305,342 @@ Section MembersC.
     pose proof (Hb (wcomb c 0 (map fst l))) as P. unfold nrm2 in *. lra.
   Qed.
 
-  Lemma mem_lin_lmi_psd L M Mt l :
-    bounded_pair L M Mt -> (forall x y, In (x, y) l -> veq y (M x)) ->
-    psd_rows (lmi_matrix (ref_lin_lmi L) l).
+  Lemma lin_lmi_sym L (l : list (E * E)) : sym_rows (lmi_matrix (ref_lin_lmi L) l).
   Proof.
-    intros HB H. apply (lin_lmi_psd_gen L M l); [apply (bp_lin _ _ _ HB)|apply (bp_bound _ _ _ HB)|exact H].
+    apply sym_lmi. intros a b _ _. unfold ref_lin_lmi.
+    rewrite (inner_sym E (fst a)), (inner_sym E (snd a)). reflexivity.
   Qed.
 
+  (** samples of the operator M *)
+  Lemma mem_lin_lmi_psd L M Mt l :
+    bounded_pair L M Mt -> (forall x y, In (x, y) l -> veq y (M x)) ->
+    psd_rows (lmi_matrix (fun xi yi xj yj => ref_lin_lmi L xi yi xj yj) l).
+  Proof.
+    intros HB H.
+    apply (lin_lmi_psd_gen L M l); [apply (bp_lin _ _ _ HB)|apply (bp_bound _ _ _ HB)|exact H].
+  Qed.
+
+  (** samples of the transpose Mt *)
   Lemma mem_lin_lmi_psd_t L M Mt l :
     bounded_pair L M Mt -> (forall u v, In (u, v) l -> veq v (Mt u)) ->
-    psd_rows (lmi_matrix (ref_lin_lmi L) l).
+    psd_rows (lmi_matrix (fun ui vi uj vj => ref_lin_lmi L ui vi uj vj) l).
   Proof.
-    intros HB H. apply (lin_lmi_psd_gen L Mt l); [apply (bp_lint _ _ _ HB)|apply (bp_boundt _ _ _ HB)|exact H].
+    intros HB H.
+    apply (lin_lmi_psd_gen L Mt l); [apply (bp_lint _ _ _ HB)|apply (bp_boundt _ _ _ HB)|exact H].
+  Qed.
+
+  Lemma mem_lin_lmi L M Mt (samples : list triple) :
+    bounded_pair L M Mt -> (forall s, In s samples -> genuine_lin M s) ->
+    psd_rows (lmi_matrix (fun xi yi xj yj => ref_lin_lmi L xi yi xj yj) (map sample_xg samples)) /\
+    sym_rows (lmi_matrix (fun xi yi xj yj => ref_lin_lmi L xi yi xj yj) (map sample_xg samples)).
+  Proof.
+    intros HB H. split; [|apply lin_lmi_sym].
+    apply (mem_lin_lmi_psd L M Mt); [exact HB|].
+    apply (in_sample_xg (genuine_lin M) (fun x g => veq g (M x))); [|exact H].
+    intros x g f Hg. exact Hg.
+  Qed.
+
+  Lemma mem_lin_lmi_t L M Mt (samples : list triple) :
+    bounded_pair L M Mt -> (forall s, In s samples -> genuine_lin Mt s) ->
+    psd_rows (lmi_matrix (fun ui vi uj vj => ref_lin_lmi L ui vi uj vj) (map sample_xg samples)) /\
+    sym_rows (lmi_matrix (fun ui vi uj vj => ref_lin_lmi L ui vi uj vj) (map sample_xg samples)).
+  Proof.
+    intros HB H. split; [|apply lin_lmi_sym].
+    apply (mem_lin_lmi_psd_t L M Mt); [exact HB|].
+    apply (in_sample_xg (genuine_lin Mt) (fun x g => veq g (Mt x))); [|exact H].
+    intros x g f Hg. exact Hg.
   Qed.
 
   (** ** SkewSymmetricLinearOperator(L) *)
-  Lemma mem_skew L A xi gi xj gj :
-    skew_bounded L A -> veq gi (A xi) -> veq gj (A xj) -> ref_skew xi gi xj gj = 0.
+  Lemma mem_skew L A xi gi fi xj gj fj :
+    skew_bounded L A -> genuine_lin A (xi, gi, fi) -> genuine_lin A (xj, gj, fj) ->
+    ref_skew xi gi xj gj = 0.
   Proof.
-    intros HS Hi Hj. unfold ref_skew.
+    intros HS Hi Hj. unfold ref_skew. cbn in Hi, Hj.
     rewrite (veq_inner_r _ _ xi Hj), (veq_inner_r _ _ xj Hi).
     rewrite (inner_sym E xj (A xi)), (sk_skew _ _ HS). lra.
   Qed.
 
   Lemma mem_skew_lmi_psd L A l :
     skew_bounded L A -> (forall x g, In (x, g) l -> veq g (A x)) ->
-    psd_rows (lmi_matrix (ref_lin_lmi L) l).
+    psd_rows (lmi_matrix (fun xi gi xj gj => ref_lin_lmi L xi gi xj gj) l).
   Proof.
-    intros HS H. apply (lin_lmi_psd_gen L A l); [apply (sk_lin _ _ HS)|apply (sk_bound _ _ HS)|exact H].
+    intros HS H.
+    apply (lin_lmi_psd_gen L A l); [apply (sk_lin _ _ HS)|apply (sk_bound _ _ HS)|exact H].
+  Qed.
+
+  Lemma mem_skew_lmi L A (samples : list triple) :
+    skew_bounded L A -> (forall s, In s samples -> genuine_lin A s) ->
+    psd_rows (lmi_matrix (fun xi gi xj gj => ref_lin_lmi L xi gi xj gj) (map sample_xg samples)) /\
+    sym_rows (lmi_matrix (fun xi gi xj gj => ref_lin_lmi L xi gi xj gj) (map sample_xg samples)).
+  Proof.
+    intros HS H. split; [|apply lin_lmi_sym].
+    apply (mem_skew_lmi_psd L A); [exact HS|].
+    apply (in_sample_xg (genuine_lin A) (fun x g => veq g (A x))); [|exact H].
+    intros x g f Hg. exact Hg.
   Qed.
 
   (** ** SymmetricLinearOperator(mu, L) *)
-  Lemma mem_sym mu L Q xi gi xj gj :
-    sa_bounded mu L Q -> veq gi (Q xi) -> veq gj (Q xj) -> ref_sym xi gi xj gj = 0.
+  Lemma mem_sym mu L Q xi gi fi xj gj fj :
+    sa_bounded mu L Q -> genuine_lin Q (xi, gi, fi) -> genuine_lin Q (xj, gj, fj) ->
+    ref_sym xi gi xj gj = 0.
   Proof.
-    intros HQ Hi Hj. unfold ref_sym.
+    intros HQ Hi Hj. unfold ref_sym. cbn in Hi, Hj.
     rewrite (veq_inner_r _ _ xi Hj), (veq_inner_r _ _ xj Hi).
     rewrite (inner_sym E xj (Q xi)), (sab_sym _ _ _ HQ). lra.
   Qed.
 
+  Lemma quadform_sym_lmi c mu L (l : list (E * E)) :
+    quadform c (lmi_matrix (ref_sym_lmi mu L) l)
+    = L * inner (wcomb c 0 (map snd l)) (wcomb c 0 (map fst l))
+      - inner (wcomb c 0 (map snd l)) (wcomb c 0 (map snd l))
+      - mu * L * inner (wcomb c 0 (map fst l)) (wcomb c 0 (map fst l))
+      + mu * inner (wcomb c 0 (map fst l)) (wcomb c 0 (map snd l)).
+  Proof.
+    rewrite quadform_lmi. unfold ref_sym_lmi.
+    rewrite dsum_plus, !dsum_minus, !dsum_scal, !dsum_inner. reflexivity.
+  Qed.
+
+  Lemma mem_sym_lmi_psd mu L Q l :
+    sa_bounded mu L Q -> (forall x g, In (x, g) l -> veq g (Q x)) ->
+    psd_rows (lmi_matrix (fun xi gi xj gj => ref_sym_lmi mu L xi gi xj gj) l).
+  Proof.
+    intros HQ H c.
+    change (0 <= quadform c (lmi_matrix (ref_sym_lmi mu L) l)).
+    rewrite quadform_sym_lmi.
+    pose proof (linear_wcomb Q c 0%nat l (sab_lin _ _ _ HQ) H) as Hv.
+    set (X := wcomb c 0 (map fst l)) in *. set (G := wcomb c 0 (map snd l)) in *.
+    rewrite (veq_inner_l _ _ X Hv), (veq_inner _ _ _ _ Hv Hv), (veq_inner_r _ _ X Hv).
+    rewrite <- (sab_sym _ _ _ HQ X X).
+    pose proof (commuting_bounds mu L Q X HQ) as P. lra.
+  Qed.
+
+  Lemma mem_sym_lmi_sym mu L Q l :
+    sa_bounded mu L Q -> (forall x g, In (x, g) l -> veq g (Q x)) ->
+    sym_rows (lmi_matrix (fun xi gi xj gj => ref_sym_lmi mu L xi gi xj gj) l).
+  Proof.
+    intros HQ H. apply sym_lmi. intros [xa ga] [xb gb] Ha Hb. cbn [fst snd].
+    pose proof (H _ _ Ha) as Va. pose proof (H _ _ Hb) as Vb.
+    unfold ref_sym_lmi.
+    rewrite (veq_inner_l _ _ xb Va), (veq_inner_r _ _ xa Vb),
+            (veq_inner_l _ _ xa Vb), (veq_inner_r _ _ xb Va),
+            (veq_inner _ _ _ _ Va Vb), (veq_inner _ _ _ _ Vb Va).
+    rewrite (inner_sym E (Q xb) (Q xa)), (inner_sym E xb xa).
+    rewrite <- (sab_sym _ _ _ HQ xa xb), <- (sab_sym _ _ _ HQ xb xa).
+    rewrite (inner_sym E (Q xb) xa), (sab_sym _ _ _ HQ xa xb), (inner_sym E xa (Q xb)).
+    ring.
+  Qed.
+
+  Lemma mem_sym_lmi mu L Q (samples : list triple) :
+    sa_bounded mu L Q -> (forall s, In s samples -> genuine_lin Q s) ->
+    psd_rows (lmi_matrix (fun xi gi xj gj => ref_sym_lmi mu L xi gi xj gj) (map sample_xg samples)) /\
+    sym_rows (lmi_matrix (fun xi gi xj gj => ref_sym_lmi mu L xi gi xj gj) (map sample_xg samples)).
+  Proof.
+    intros HQ H.
+    assert (H' : forall x g, In (x, g) (map sample_xg samples) -> veq g (Q x)).
+    { apply (in_sample_xg (genuine_lin Q) (fun x g => veq g (Q x))); [|exact H].
+      intros x g f Hg. exact Hg. }
+    split; [apply (mem_sym_lmi_psd mu L Q)|apply (mem_sym_lmi_sym mu L Q)]; assumption.
+  Qed.
+
+  (** ** SmoothStronglyConvexQuadraticFunction(mu, L) *)
+  Lemma mem_quad_value mu L Q xs fs xi gi fi :
+    sa_bounded mu L Q -> genuine_quad Q xs fs (xi, gi, fi) ->
+    ref_quad_value xi gi xs fi fs = 0.
+  Proof.
+    intros _ [Hg Hf]. unfold ref_quad_value. rewrite (veq_inner_r _ _ _ Hg). lra.
+  Qed.
+
+  Lemma mem_quad_sym mu L Q xs fs xi gi fi xj gj fj :
+    sa_bounded mu L Q -> genuine_quad Q xs fs (xi, gi, fi) -> genuine_quad Q xs fs (xj, gj, fj) ->
+    ref_quad_sym xi gi xj gj xs = 0.
+  Proof.
+    intros HQ [Hgi _] [Hgj _]. unfold ref_quad_sym.
+    rewrite (veq_inner_r _ _ _ Hgj), (veq_inner_r _ _ _ Hgi).
+    rewrite (inner_sym E (vsub xj xs)), (sab_sym _ _ _ HQ). lra.
+  Qed.
+
+  Lemma quadform_quad_lmi c mu L xs (l : list (E * E)) :
+    quadform c (lmi_matrix (fun xi gi xj gj => ref_quad_lmi mu L xi gi xj gj xs) l)
+    = (L + mu) * inner (wcomb c 0 (map snd l)) (wcomb c 0 (map (fun a => vsub (fst a) xs) l))
+      - inner (wcomb c 0 (map snd l)) (wcomb c 0 (map snd l))
+      - mu * L * inner (wcomb c 0 (map (fun a => vsub (fst a) xs) l))
+                       (wcomb c 0 (map (fun a => vsub (fst a) xs) l)).
+  Proof.
+    rewrite quadform_lmi. unfold ref_quad_lmi.
+    rewrite !dsum_minus, !dsum_scal.
+    rewrite (dsum_inner c (fun a => snd a) (fun b => vsub (fst b) xs)),
+            (dsum_inner c (fun a => snd a) (fun b => snd b)),
+            (dsum_inner c (fun a => vsub (fst a) xs) (fun b => vsub (fst b) xs)).
+    reflexivity.
+  Qed.
+
+  Lemma mem_quad_lmi_psd mu L Q xs l :
+    sa_bounded mu L Q -> (forall x g, In (x, g) l -> veq g (Q (vsub x xs))) ->
+    psd_rows (lmi_matrix (fun xi gi xj gj => ref_quad_lmi mu L xi gi xj gj xs) l).
+  Proof.
+    intros HQ H c. rewrite quadform_quad_lmi.
+    assert (Hv : veq (wcomb c 0 (map snd l)) (Q (wcomb c 0 (map (fun a => vsub (fst a) xs) l)))).
+    { apply (linear_wcomb_gen Q c (fun a : E * E => vsub (fst a) xs) snd 0%nat l (sab_lin _ _ _ HQ)).
+      intros [x g] Ha. apply H, Ha. }
+    set (X := wcomb c 0 (map (fun a => vsub (fst a) xs) l)) in *.
+    set (G := wcomb c 0 (map snd l)) in *.
+    rewrite (veq_inner_l _ _ X Hv), (veq_inner _ _ _ _ Hv Hv).
+    apply (commuting_bounds mu L Q X HQ).
+  Qed.
+
+  Lemma mem_quad_lmi_sym mu L Q xs l :
+    sa_bounded mu L Q -> (forall x g, In (x, g) l -> veq g (Q (vsub x xs))) ->
+    sym_rows (lmi_matrix (fun xi gi xj gj => ref_quad_lmi mu L xi gi xj gj xs) l).
+  Proof.
+    intros HQ H. apply sym_lmi. intros [xa ga] [xb gb] Ha Hb. cbn [fst snd].
+    pose proof (H _ _ Ha) as Va. pose proof (H _ _ Hb) as Vb.
+    unfold ref_quad_lmi.
+    set (a := vsub xa xs) in *. set (b := vsub xb xs) in *.
+    rewrite (veq_inner_l _ _ b Va), (veq_inner_l _ _ a Vb),
+            (veq_inner _ _ _ _ Va Vb), (veq_inner _ _ _ _ Vb Va).
+    rewrite (inner_sym E (Q b) (Q a)), (inner_sym E b a).
+    rewrite (sab_sym _ _ _ HQ b a), (inner_sym E b (Q a)). reflexivity.
+  Qed.
+
+  Lemma mem_quad_lmi mu L Q xs fs (samples : list triple) :
+    sa_bounded mu L Q -> (forall s, In s samples -> genuine_quad Q xs fs s) ->
+    psd_rows (lmi_matrix (fun xi gi xj gj => ref_quad_lmi mu L xi gi xj gj xs)
+                         (map sample_xg samples)) /\
+    sym_rows (lmi_matrix (fun xi gi xj gj => ref_quad_lmi mu L xi gi xj gj xs)
+                         (map sample_xg samples)).
+  Proof.
+    intros HQ H.
+    assert (H' : forall x g, In (x, g) (map sample_xg samples) -> veq g (Q (vsub x xs))).
+    { apply (in_sample_xg (genuine_quad Q xs fs) (fun x g => veq g (Q (vsub x xs)))); [|exact H].
+      intros x g f [Hg _]. exact Hg. }
+    split; [apply (mem_quad_lmi_psd mu L Q)|apply (mem_quad_lmi_sym mu L Q)]; assumption.
+  Qed.
 End MembersC.
+
+(** * Non-vacuity: concrete members on R^2 with genuine samples *)
+
+Lemma veq_Rn2 (a b : Rn 2) : veq a b <-> (a 0%nat = b 0%nat /\ a 1%nat = b 1%nat).
+Proof.
+  split.
+  - intro H. split.
+    + pose proof (H (fun i => if Nat.eqb i 0 then 1 else 0)) as P. cbn in P. lra.
+    + pose proof (H (fun i => if Nat.eqb i 1 then 1 else 0)) as P. cbn in P. lra.
+  - intros [H0 H1] w. cbn. rewrite H0, H1. reflexivity.
+Qed.
+
+Definition vec2 (a b : R) : Rn 2 := fun i => match i with O => a | S O => b | _ => 0 end.
+
+(** a 2x2 matrix [[m00, m01], [m10, m11]] acting on R^2 *)
+Definition mat2 (m00 m01 m10 m11 : R) (u : Rn 2) : Rn 2 :=
+  vec2 (m00 * u 0%nat + m01 * u 1%nat) (m10 * u 0%nat + m11 * u 1%nat).
+
+Lemma mat2_linear m00 m01 m10 m11 : linear (mat2 m00 m01 m10 m11).
+Proof.
+  constructor.
+  - intros a b. apply veq_Rn2. unfold mat2, vec2. cbn. split; lra.
+  - intros c a. apply veq_Rn2. unfold mat2, vec2. cbn. split; lra.
+  - apply veq_Rn2. unfold mat2, vec2. cbn. split; lra.
+  - intros a b H. apply veq_Rn2 in H. destruct H as [H0 H1].
+    apply veq_Rn2. unfold mat2, vec2. cbn. rewrite H0, H1. split; reflexivity.
+Qed.
+
+(** the rotation by a quarter turn J = [[0,-1],[1,0]], its transpose Jt = [[0,1],[-1,0]]:
+    a LinearOperator(1) pair, and J is a SkewSymmetricLinearOperator(1). *)
+Example linear_operator_nonvacuous :
+  let J := mat2 0 (-1) 1 0 in
+  let Jt := mat2 0 1 (-1) 0 in
+  bounded_pair 1 J Jt /\
+  genuine_lin J (vec2 1 0, vec2 0 1, 0) /\ genuine_lin J (vec2 1 2, vec2 (-2) 1, 0) /\
+  genuine_lin Jt (vec2 1 0, vec2 0 (-1), 0) /\
+  ref_lin_adjoint (vec2 1 2) (vec2 (-2) 1) (vec2 1 0) (vec2 0 (-1)) = 0 /\
+  psd_rows (lmi_matrix (fun xi yi xj yj => ref_lin_lmi 1 xi yi xj yj)
+                       [(vec2 1 0, vec2 0 1); (vec2 1 2, vec2 (-2) 1)]).
+Proof.
+  intros J Jt.
+  assert (HB : bounded_pair 1 J Jt).
+  { constructor; try apply mat2_linear.
+    - intros a b. unfold J, Jt, mat2, vec2. cbn. ring.
+    - intro a. unfold J, mat2, vec2, nrm2. cbn. lra.
+    - intro a. unfold Jt, mat2, vec2, nrm2. cbn. lra. }
+  assert (G1 : genuine_lin J (vec2 1 0, vec2 0 1, 0)).
+  { apply veq_Rn2. unfold J, mat2, vec2. cbn. split; lra. }
+  assert (G2 : genuine_lin J (vec2 1 2, vec2 (-2) 1, 0)).
+  { apply veq_Rn2. unfold J, mat2, vec2. cbn. split; lra. }
+  assert (G3 : genuine_lin Jt (vec2 1 0, vec2 0 (-1), 0)).
+  { apply veq_Rn2. unfold Jt, mat2, vec2. cbn. split; lra. }
+  split; [exact HB|]. split; [exact G1|]. split; [exact G2|]. split; [exact G3|]. split.
+  - apply (mem_lin_adjoint 1 J Jt _ _ 0 _ _ 0 HB G2 G3).
+  - apply (mem_lin_lmi 1 J Jt [(vec2 1 0, vec2 0 1, 0); (vec2 1 2, vec2 (-2) 1, 0)] HB).
+    intros s [Hs|[Hs|[]]]; subst s; assumption.
+Qed.
+
+Example skew_operator_nonvacuous :
+  let J := mat2 0 (-1) 1 0 in
+  skew_bounded 1 J /\
+  genuine_lin J (vec2 1 0, vec2 0 1, 0) /\ genuine_lin J (vec2 1 2, vec2 (-2) 1, 0) /\
+  ref_skew (vec2 1 0) (vec2 0 1) (vec2 1 2) (vec2 (-2) 1) = 0.
+Proof.
+  intro J.
+  assert (HS : skew_bounded 1 J).
+  { constructor; try apply mat2_linear.
+    - intros a b. unfold J, mat2, vec2. cbn. ring.
+    - intro a. unfold J, mat2, vec2, nrm2. cbn. lra. }
+  assert (G1 : genuine_lin J (vec2 1 0, vec2 0 1, 0)).
+  { apply veq_Rn2. unfold J, mat2, vec2. cbn. split; lra. }
+  assert (G2 : genuine_lin J (vec2 1 2, vec2 (-2) 1, 0)).
+  { apply veq_Rn2. unfold J, mat2, vec2. cbn. split; lra. }
+  split; [exact HS|]. split; [exact G1|]. split; [exact G2|].
+  apply (mem_skew 1 J _ _ 0 _ _ 0 HS G1 G2).
+Qed.
+
+(** Q = [[2,1],[1,2]] : symmetric, eigenvalues 1 and 3. *)
+Lemma Q2112_bounded : sa_bounded 1 3 (mat2 2 1 1 2).
+Proof.
+  constructor; try apply mat2_linear.
+  - intros a b. unfold mat2, vec2. cbn. ring.
+  - intro a. unfold mat2, vec2, nrm2. cbn.
+    pose proof (Rle_0_sqr (a 0%nat + a 1%nat)) as S. unfold Rsqr in S. lra.
+  - intro a. unfold mat2, vec2, nrm2. cbn.
+    pose proof (Rle_0_sqr (a 0%nat - a 1%nat)) as S. unfold Rsqr in S. lra.
+Qed.
+
+Example symmetric_operator_nonvacuous :
+  let Q := mat2 2 1 1 2 in
+  sa_bounded 1 3 Q /\
+  genuine_lin Q (vec2 1 0, vec2 2 1, 0) /\ genuine_lin Q (vec2 1 (-1), vec2 1 (-1), 0) /\
+  ref_sym (vec2 1 0) (vec2 2 1) (vec2 1 (-1)) (vec2 1 (-1)) = 0 /\
+  psd_rows (lmi_matrix (fun xi gi xj gj => ref_sym_lmi 1 3 xi gi xj gj)
+                       [(vec2 1 0, vec2 2 1); (vec2 1 (-1), vec2 1 (-1))]).
+Proof.
+  intro Q. pose proof Q2112_bounded as HQ. fold Q in HQ.
+  assert (G1 : genuine_lin Q (vec2 1 0, vec2 2 1, 0)).
+  { apply veq_Rn2. unfold Q, mat2, vec2. cbn. split; lra. }
+  assert (G2 : genuine_lin Q (vec2 1 (-1), vec2 1 (-1), 0)).
+  { apply veq_Rn2. unfold Q, mat2, vec2. cbn. split; lra. }
+  split; [exact HQ|]. split; [exact G1|]. split; [exact G2|]. split.
+  - apply (mem_sym 1 3 Q _ _ 0 _ _ 0 HQ G1 G2).
+  - apply (mem_sym_lmi 1 3 Q [(vec2 1 0, vec2 2 1, 0); (vec2 1 (-1), vec2 1 (-1), 0)] HQ).
+    intros s [Hs|[Hs|[]]]; subst s; assumption.
+Qed.
+
+(** F x = 5 + 1/2 <x - xs, Q (x - xs)> with xs = (1, 1). *)
+Example quadratic_function_nonvacuous :
+  let Q := mat2 2 1 1 2 in
+  let xs : Rn 2 := vec2 1 1 in
+  sa_bounded 1 3 Q /\
+  genuine_quad Q xs 5 (vec2 2 1, vec2 2 1, 6) /\ genuine_quad Q xs 5 (xs, vec2 0 0, 5) /\
+  ref_quad_value (vec2 2 1) (vec2 2 1) xs 6 5 = 0 /\
+  psd_rows (lmi_matrix (fun xi gi xj gj => ref_quad_lmi 1 3 xi gi xj gj xs)
+                       [(vec2 2 1, vec2 2 1); (xs, vec2 0 0)]).
+Proof.
+  intros Q xs. pose proof Q2112_bounded as HQ. fold Q in HQ.
+  assert (G1 : genuine_quad Q xs 5 (vec2 2 1, vec2 2 1, 6)).
+  { split; [apply veq_Rn2|]; unfold Q, xs, mat2, vec2, vsub, vneg; cbn; [split|]; lra. }
+  assert (G2 : genuine_quad Q xs 5 (xs, vec2 0 0, 5)).
+  { split; [apply veq_Rn2|]; unfold Q, xs, mat2, vec2, vsub, vneg; cbn; [split|]; lra. }
+  split; [exact HQ|]. split; [exact G1|]. split; [exact G2|]. split.
+  - apply (mem_quad_value 1 3 Q xs 5 _ _ _ HQ G1).
+  - apply (mem_quad_lmi 1 3 Q xs 5 [(vec2 2 1, vec2 2 1, 6); (xs, vec2 0 0, 5)] HQ).
+    intros s [Hs|[Hs|[]]]; subst s; assumption.
+Qed.
